@@ -12,12 +12,13 @@
 //!        (ok ((fmt #text (err ...)) (wrt #text (err ...)) (calls (c #id (value ...) ((#k value) ...)) ...)
 //!             (alt #text (err ...)))
 //!            (x (again #text (err ...)) (fresh #text (err ...)) (perm #text (err ...)) (collect #text (err ...))
-//!               (wcalls n) (slow true|false)))
+//!               (wcalls n) (permall true|false) (slow true|false)))
 //!   fmt = format_pattern, wrt = write_pattern on the same bundle afterwards, calls = functions invoked
 //!   during fmt, alt = format_pattern on a bundle with isolation flipped.  The `x` part is for the
 //!   implementation-only oracles (C08): again = format_pattern repeated on the first bundle after every
 //!   other message of the bundle has been formatted; fresh = on a newly built bundle; perm = arguments
-//!   inserted in reverse order; collect = arguments through FromIterator.
+//!   inserted in reverse order; collect = arguments through FromIterator; permall = every insertion order of an
+//!   argument set of at most 4 distinct keys gives the fmt result.
 use fluent_bundle::memoizer::MemoizerKind;
 use fluent_bundle::types::{FluentNumber, FluentType};
 use fluent_bundle::{FluentArgs, FluentError, FluentResource, FluentValue};
@@ -369,6 +370,48 @@ fn run_with<M: MemoizerKind>(
     let perm = bundle.format_pattern(pattern, rev_args.as_ref(), &mut e4).to_string();
     let perm_s = res_pair("perm", &perm, &e4);
 
+    // every insertion order of an argument set of at most 4 distinct keys
+    let mut permall = true;
+    if let Some(p) = pairs.as_ref() {
+        let mut keys: Vec<&str> = p.iter().map(|(k, _)| k.as_str()).collect();
+        keys.sort();
+        keys.dedup();
+        if p.len() <= 4 && keys.len() == p.len() {
+            let mut idx: Vec<usize> = (0..p.len()).collect();
+            // Heap's algorithm, iterative
+            let n = idx.len();
+            let mut c = vec![0usize; n];
+            let mut i = 0;
+            let mut check = |order: &Vec<usize>| {
+                let mut a = FluentArgs::new();
+                for &j in order {
+                    a.set(p[j].0.clone(), dec_val(&p[j].1));
+                }
+                let mut e = vec![];
+                let t = bundle.format_pattern(pattern, Some(&a), &mut e).to_string();
+                if t != fmt || e != errs {
+                    permall = false;
+                }
+            };
+            check(&idx);
+            while i < n {
+                if c[i] < i {
+                    if i % 2 == 0 {
+                        idx.swap(0, i);
+                    } else {
+                        idx.swap(c[i], i);
+                    }
+                    check(&idx);
+                    c[i] += 1;
+                    i = 0;
+                } else {
+                    c[i] = 0;
+                    i += 1;
+                }
+            }
+        }
+    }
+
     let col_args = pairs.as_ref().map(|p| mk_args(p, "collect"));
     let mut e5 = vec![];
     let col = bundle.format_pattern(pattern, col_args.as_ref(), &mut e5).to_string();
@@ -387,6 +430,7 @@ fn run_with<M: MemoizerKind>(
             perm_s,
             col_s,
             list(vec![sym("wcalls"), int(wcalls as i64)]),
+            list(vec![sym("permall"), sbool(permall)]),
             list(vec![sym("slow"), sbool(elapsed.as_millis() > 3000)]),
         ]),
     ])
